@@ -1,21 +1,31 @@
 #!/bin/bash
-# usage: extract.sh <repo_dir> <out.json> [extra cargo args]
-# Runs the fact extractor over <repo_dir>'s library target in a fresh temporary target dir.
+# usage: extract.sh <repo_dir> <out.json> [persistent_target_dir]
+# Runs the fact extractor over <repo_dir>'s library target.  With a persistent target dir the
+# dependencies stay compiled, but seq_io's own fingerprint is removed first so that the driver is
+# guaranteed to run on the current sources (a warm fingerprint would silently skip the wrapper).
 set -euo pipefail
-REPO="$1"; OUT="$2"; shift 2
+REPO="$1"; OUT="$2"; PTGT="${3:-}"
 HERE="$(cd "$(dirname "$0")/.." && pwd)"
 DRV="$HERE/driver/target/release/seqio-facts"
-if [ ! -x "$DRV" ]; then
+if [ ! -x "$DRV" ] || [ "$HERE/driver/src/main.rs" -nt "$DRV" ]; then
   (cd "$HERE/driver" && CARGO_NET_OFFLINE=true cargo build --release --offline >/dev/null 2>&1) || { echo "driver build failed" >&2; exit 3; }
 fi
 SYSROOT="$(rustc +nightly --print sysroot)"
-TGT="$(mktemp -d /tmp/seqio-facts-tgt.XXXXXX)"
-trap 'rm -rf "$TGT"' EXIT
+if [ -n "$PTGT" ]; then
+  TGT="$PTGT"; mkdir -p "$TGT"
+  rm -rf "$TGT"/debug/.fingerprint/seq_io-* "$TGT"/debug/incremental/seq_io-* 2>/dev/null || true
+  LOG="$(mktemp /tmp/seqio-facts-log.XXXXXX)"
+  trap 'rm -f "$LOG"' EXIT
+else
+  TGT="$(mktemp -d /tmp/seqio-facts-tgt.XXXXXX)"
+  LOG="$TGT/cargo.log"
+  trap 'rm -rf "$TGT"' EXIT
+fi
 rm -f "$OUT"
 cd "$REPO"
 LD_LIBRARY_PATH="$SYSROOT/lib" \
 RUSTFLAGS="-Zmir-opt-level=0 -Awarnings -Coverflow-checks=off -Cdebug-assertions=off" \
 RUSTC_WORKSPACE_WRAPPER="$DRV" SEQIO_FACTS_OUT="$OUT" SEQIO_FACTS_CRATE=seq_io \
-CARGO_TARGET_DIR="$TGT" CARGO_NET_OFFLINE=true \
-cargo +nightly check --offline --lib "$@" >"$TGT/cargo.log" 2>&1 || { cat "$TGT/cargo.log" >&2; exit 2; }
-[ -s "$OUT" ] || { echo "fact file was not written" >&2; cat "$TGT/cargo.log" >&2; exit 2; }
+CARGO_TARGET_DIR="$TGT" CARGO_NET_OFFLINE=true CARGO_INCREMENTAL=0 \
+cargo +nightly check --offline --lib >"$LOG" 2>&1 || { cat "$LOG" >&2; exit 2; }
+[ -s "$OUT" ] || { echo "fact file was not written (driver skipped?)" >&2; cat "$LOG" >&2; exit 2; }
